@@ -123,6 +123,10 @@ def lines_for(tree, rng):
                 otoks = (["--" + o["long"]] + val) if form == "long" else (["-" + o["short"]] + val)
                 out.append((names + otoks + fill, "path+opt-first-" + tag))
                 out.append((names + fill + otoks, "path+opt-last-" + tag))
+            for o in n["opts"]:
+                if o.get("shadows"):
+                    out.append((names + ["--" + o["long"]] + fill, "path+option-named-like-subcommand-" + tag))
+                    out.append((names + fill + ["--" + o["long"]], "path+args+option-named-like-subcommand-" + tag))
             if not use_alias:
                 for i in range(len(names)):
                     out.append((names[:i] + ["bogus"] + names[i:], "wrong@%d" % i))
